@@ -31,6 +31,9 @@ pub enum Start {
     /// look valid: it decodes to publication `base`, which nobody published here.
     Foreign { gen: u16, base: u64 },
     Valid { gen: u16, base: u64 },
+    /// A valid, published segment whose header announces more than the 72 bytes this writer
+    /// would create (another build's padding); the file is that long.
+    ValidBig { gen: u16, base: u64, size: u32 },
     /// A writer died in the middle of publication base+1 after `words` words.
     ValidOdd { gen: u16, base: u64, words: usize },
 }
@@ -44,6 +47,7 @@ impl Start {
             Start::Wiped { .. } => "wiped",
             Start::Foreign { .. } => "foreign",
             Start::Valid { .. } => "valid-even",
+            Start::ValidBig { .. } => "valid-bigger",
             Start::ValidOdd { .. } => "valid-odd",
         }
     }
@@ -56,6 +60,7 @@ impl Start {
             Start::Wiped { version } => json!({"kind":"wiped","version":version}),
             Start::Foreign { gen, base } => json!({"kind":"foreign","gen":gen,"base":base}),
             Start::Valid { gen, base } => json!({"kind":"valid-even","gen":gen,"base":base}),
+            Start::ValidBig { gen, base, size } => json!({"kind":"valid-bigger","gen":gen,"base":base,"size":size}),
             Start::ValidOdd { gen, base, words } => json!({"kind":"valid-odd","gen":gen,"base":base,"words":words}),
         }
     }
@@ -67,6 +72,7 @@ impl Start {
             "garbage" => Start::Garbage(v["bytes"].as_array().unwrap().iter().map(|b| b.as_u64().unwrap() as u8).collect()),
             "wiped" => Start::Wiped { version: v["version"].as_u64().unwrap() as u16 },
             "foreign" => Start::Foreign { gen: v["gen"].as_u64().unwrap() as u16, base: v["base"].as_u64().unwrap() },
+            "valid-bigger" => Start::ValidBig { gen: v["gen"].as_u64().unwrap() as u16, base: v["base"].as_u64().unwrap(), size: v["size"].as_u64().unwrap() as u32 },
             "valid-even" => Start::Valid { gen: v["gen"].as_u64().unwrap() as u16, base: v["base"].as_u64().unwrap() },
             "valid-odd" => Start::ValidOdd { gen: v["gen"].as_u64().unwrap() as u16, base: v["base"].as_u64().unwrap(), words: v["words"].as_u64().unwrap() as usize },
             k => panic!("unknown start kind {}", k),
@@ -76,7 +82,7 @@ impl Start {
     /// (publications begun, publications completed, segment usable by clients) in this state.
     pub fn progress(&self) -> (u64, u64, bool) {
         match self {
-            Start::Valid { base, .. } => (*base, *base, true),
+            Start::Valid { base, .. } | Start::ValidBig { base, .. } => (*base, *base, true),
             Start::ValidOdd { base, .. } => (*base + 1, *base, true),
             _ => (0, 0, false),
         }
@@ -98,6 +104,12 @@ impl Start {
                 std::fs::write(path, bytes).unwrap()
             }
             Start::Valid { gen, base } => std::fs::write(path, segment_bytes(1, *gen, *base)).unwrap(),
+            Start::ValidBig { gen, base, size } => {
+                let mut bytes = segment_bytes(1, *gen, *base);
+                bytes[8..12].copy_from_slice(&size.to_ne_bytes());
+                bytes.resize(*size as usize, 0);
+                std::fs::write(path, bytes).unwrap()
+            }
             Start::ValidOdd { gen, base, words } => {
                 let mut bytes = segment_bytes(1, *gen, *base);
                 let next = words_of_index(*base + 1);
